@@ -92,7 +92,7 @@ PROPS["C13"] = {
 }
 PROPS["C07"] = {
     "technique": 'Lean 4 proof over crash prefixes of the batch log + SIGKILL / power-loss fault enumeration on the real store',
-    "suites": [{"name": "crash", "quick": 16, "thorough": 0, "timeout": 3000}],
+    "suites": [{"name": "crash", "quick": 16, "thorough": 150, "timeout": 3000}],
     "required_theorems": ["C07_single_batch", "C07_crash_atomic", "C07_log_replay", "C07_history_crash_consistent",
                           "C07_rebuild_crash_keeps_records", "C07_rebuild_crash_recordsOk", "C07_rebuild_repairs"],
     "level_text": "Kernel-checked on the store model: every mutation except the rebuild commits at most one atomic batch, so every crash prefix of the batch log of ANY rebuild-free history is the state after a prefix of the operations and satisfies the index invariant; an interrupted rebuild never changes a record, and re-running the rebuild from ANY state with intact records restores the full invariant with the same records. Tie (fault enumeration validating the model): a child process is SIGKILLed before every write-type file-system call of short histories on a real directory and the reopened store must be the state after `acked` or `acked+1` operations with consistent indexes (raw key dump == the Lean model's key set); on a strict in-memory FS unsynced data is dropped after every acknowledged operation.",
